@@ -180,7 +180,7 @@ struct C17 : Scenario {
         } else if (u < 0.3) {
             c.startfile = "start.h5";
             if (r.chance(0.5)) c.currents = {1e-3};   // (a start file forces one bunch; several currents with it are still accepted)
-            int k = (int)r.range(0, 9);      // 7..9: the right shape stored with another element type
+            int k = (int)r.range(0, 11);     // 7..9: the right shape stored with another element type; 10, 11: results files of multi-bunch legs
             p.seti("h5start.kind", k);
             p.seti("h5start.arg", r.range(0, 1000000));
             addop("h5start_kind" + std::to_string(k));
@@ -264,6 +264,8 @@ struct C17 : Scenario {
             case 7: h5_write_as(f, "/PhaseSpace/data", {2, n, n}, data(2 * n * n), 'd'); break;                   // float64 (numpy/h5py default, double-precision build)
             case 8: h5_write_as(f, "/PhaseSpace/data", {1, n, n}, data(n * n), arg % 2 ? 'q' : 'i'); break;       // integers
             case 9: h5_write_as(f, "/PhaseSpace/data", {2, n, n}, data(2 * n * n), 'h'); break;                   // big-endian float32
+            case 10: { unsigned long long nb = 2 + (unsigned long long)(arg % 3); h5_write_f32(f, "/PhaseSpace/data", {2, nb, n, n}, data(2 * nb * n * n)); break; }      // square grids of the right size, 2-4 bunches
+            case 11: { unsigned long long h = std::max<unsigned long long>(4, n / 2); h5_write_f32(f, "/PhaseSpace/data", {1, 4, h, h}, data(4 * h * h)); break; }         // 4 bunches at half the grid size: as many values as one bunch at the full size
             default: { unsigned long long m = n > 9 ? n - 3 : n + 2; h5_write_f32(f, "/PhaseSpace/data", {1, 2, m, n}, data(2 * m * n)); break; }        // non-square, 2 bunches
             }
         }
